@@ -132,4 +132,60 @@ SPECS = {
             'an issuing call interrupted by a commit failure or crash is unacknowledged; the index model is re-read from keys() before every issuing call',
         ],
     },
+    'C10': {
+        'property': 'C10',
+        'level': 'exploration',
+        'arms': [{
+            'name': 'ceremony',
+            'module': 'scenarios.ceremony_world',
+            'fault_kinds': ['msg_drop', 'msg_dup', 'msg_reorder', 'msg_corrupt', 'prov_raise', 'prov_false', 'bcast_lost_reply'],
+            'tiers': {
+                'quick': {'runs': 260, 'budget_s': 110, 'run_timeout_s': 120, 'shrink_budget_s': 80,
+                          'params': {'focus': 'C10', 'max_n': 4}},
+                'thorough': {'runs': 6000, 'budget_s': 1500, 'run_timeout_s': 240, 'shrink_budget_s': 240,
+                             'params': {'focus': 'C10', 'max_n': 7}},
+            },
+        }],
+        'rule': ('one run = one ceremony: m-of-n (n<=4 quick, <=7 thorough) cosigners, 2-3 of them real wallets in separate '
+                 'databases created from independently permuted key lists, the rest external signers; then 8-24 events: ask '
+                 'parties for the key at an explicit path, fund, create a spend, sign (holder / external cosigner / foreign key), '
+                 'hand a copy over as object / dict / raw hex through a channel that drops, duplicates and reorders, import, '
+                 'send, tamper. After every event every touched copy is judged by the library (verify / verified / pushed) and '
+                 'by the reference node against the real previous output. Non-trivial: >= 5 events and >= 1 successful library '
+                 'call; distinct = distinct event-log digests.'),
+        'state_measure': 'distinct (witness type, m, n, #signers bucket, tampered, library verdict, node verdict, last hand-off form)',
+        'components': {'real': WALLET_REAL, 'stub': WALLET_STUB + ['channel between cosigners (simulator: delay, drop, duplicate, reorder, corrupt)']},
+        'assumptions': [
+            'a cosigner counts as having signed a copy when a library sign call with its key returned without exception on that copy or an ancestor',
+            '"valid" means accepted by the reference node against the real previous output (script hash, signature order, dummy element)',
+            'at most 3 cosigners are wallet parties; the others sign through Transaction.sign(hdkey) as external signers',
+        ],
+    },
+    'C02': {
+        'property': 'C02',
+        'level': 'exploration',
+        'arms': [{
+            'name': 'verify',
+            'module': 'scenarios.ceremony_world',
+            'fault_kinds': ['msg_corrupt', 'msg_drop', 'msg_dup', 'msg_reorder'],
+            'tiers': {
+                'quick': {'runs': 320, 'budget_s': 110, 'run_timeout_s': 120, 'shrink_budget_s': 80,
+                          'params': {'focus': 'C02', 'max_n': 3}},
+                'thorough': {'runs': 8000, 'budget_s': 1500, 'run_timeout_s': 240, 'shrink_budget_s': 240,
+                             'params': {'focus': 'C02', 'max_n': 5}},
+            },
+        }],
+        'rule': ('one run = one signing / tampering history over transactions created by real wallets (single-signer P2PKH / '
+                 'P2WPKH / P2SH-P2WPKH and m-of-n P2SH / P2WSH / P2SH-P2WSH): sign with subsets of the right keys over several '
+                 'calls, re-sign, sign with a foreign key, export / import as object, dict and raw, serialize -> parse -> re-attach '
+                 'values, and 15 kinds of single-field tampering; after every event verify() is compared with the reference '
+                 'node\'s per-input count of valid signatures by distinct keys of the previous output\'s key set. Non-trivial: '
+                 '>= 5 events and >= 1 successful library call; distinct = distinct event-log digests.'),
+        'state_measure': 'distinct (witness type, m, n, #signers bucket, tampered, library verdict, node verdict, last hand-off form)',
+        'components': {'real': WALLET_REAL, 'stub': WALLET_STUB},
+        'assumptions': [
+            'soundness is judged against the previous output on the simulated chain (m and key set come from its script, never from the spending transaction)',
+            'tampering edits the transaction object the way an in-process attacker or a buggy caller would; raw-byte flips are covered by the parse round trip of tampered copies',
+        ],
+    },
 }
